@@ -18,6 +18,7 @@ func init() { Registry["C04"] = C04 }
 
 func C04(c *Ctx) {
 	r := c.R
+	defer c04Detached(c)
 	const pkg = "pkg/pppoe"
 	r.Explain = "The PPPoE server's per-session handlers are analysed by finite-domain disjunctive dataflow over (session state, authenticated flag) for every pre-configuration: a session is reported established, is assigned a client address, or has an IPCP reply sent only in configurations where its authenticated flag is true; the flag itself is set from the RADIUS verdict of this session's own PAP exchange (value-provenance of the store); session and PADT frames are handed to any per-session code only under an equality test between the frame's source MAC and the session's client MAC.  CHAP arithmetic and timing are not decided."
 	r.Rule("C04.G1.establishedAuth", "no handler leaves a session in the established state with the authenticated flag false", 20)
